@@ -237,7 +237,47 @@ func (v *vocab) one(s ast.Stmt, p path) []path {
 			}
 		}
 		return out
+	case *ast.BranchStmt:
+		if x.Tok == token.CONTINUE && x.Label == nil {
+			q := v.act(p, "continue")
+			q.done = true
+			return []path{q}
+		}
 	case *ast.SwitchStmt:
+		if x.Tag == nil && x.Init == nil {
+			// tagless switch = if / else-if chain: clause k under the negation of the earlier conditions
+			ps := []path{p}
+			var out []path
+			var def *ast.CaseClause
+			for _, c := range x.Body.List {
+				cc := c.(*ast.CaseClause)
+				if cc.List == nil {
+					def = cc
+					continue
+				}
+				if len(cc.List) != 1 {
+					return []path{v.act(p, "tagless switch case with several expressions")}
+				}
+				var next []path
+				for _, q := range ps {
+					for _, ls := range expand(cc.List[0], true) {
+						out = append(out, v.stmts(cc.Body, []path{v.withLits(q, ls)})...)
+					}
+					for _, ls := range expand(cc.List[0], false) {
+						next = append(next, v.withLits(q, ls))
+					}
+				}
+				ps = next
+			}
+			for _, q := range ps {
+				if def != nil {
+					out = append(out, v.stmts(def.Body, []path{q})...)
+				} else {
+					out = append(out, q)
+				}
+			}
+			return out
+		}
 		if x.Tag == nil || x.Init != nil {
 			break
 		}
@@ -478,6 +518,19 @@ func main() {
 	}
 	table(&b, "recoverAll", "Tracker.RecoverAll (the loop is one action)", st, "*Tracker", "RecoverAll", rav())
 	tableBody(&b, "recoverAllBody", "Tracker.RecoverAll: one iteration of its loop", st, "*Tracker", "RecoverAll", rav())
+	lsv := mk(
+		map[string]string{"p.Type == api.MetaType": ".isMeta", "p.IsRemotePin(spt.peerID)": ".isRemote", "pinnedInIpfs": ".pinnedInIpfs", "incExtra": ".incExtra",
+			"filter.Match(api.TrackerStatusSharded)": ".fMatch .sharded", "filter.Match(api.TrackerStatusRemote)": ".fMatch .remote"},
+		map[string]string{
+			"ipfsInfo, pinnedInIpfs := localpis[p.MaxDepth.ToPinMode()][p.Cid]": ".lookupOwnMode", "continue": ".skip",
+			"pininfos[p.Cid] = &pinInfo": ".putInfo", "ipfsInfo.Name = p.Name": "", "pininfos[p.Cid] = ipfsInfo": ".putIpfs",
+			"pinInfo.Error = errUnexpectedlyUnpinned.Error()": "",
+		})
+	lsv.prefix = [][2]string{{"pinInfo := api.PinInfo{ Cid: p.Cid, Name: p.Name, Peer: spt.peerID,", ""}}
+	for k, c := range statuses {
+		lsv.acts["pinInfo.Status = "+k] = ".setStatus " + c
+	}
+	tableBody(&b, "localBody", "Tracker.localStatus: one pin of the pinset (the listing StatusAll / RecoverAll start from)", st, "*Tracker", "localStatus", lsv)
 	consts(&b, "phaseConsts", op, "Phase")
 	consts(&b, "typeConsts", op, "OperationType")
 	b.WriteString("end CV.C05.Gen.Sem\n")
